@@ -78,6 +78,8 @@ type Stats struct {
 	Digest       uint64            `json:"digest"`
 	Truncated    bool              `json:"truncated_by_time"`
 	SitesHit     []int             `json:"sites_hit,omitempty"`
+	SlowestMs    float64           `json:"slowest_run_ms"`
+	SlowestRun   string            `json:"slowest_run,omitempty"`
 	RaceBuild    bool              `json:"race_build"`
 	DigestPerRun []uint64          `json:"digest_per_run,omitempty"`
 }
@@ -543,6 +545,7 @@ func refine(w *Workload, rep *RunReport) (*Workload, *RunReport) {
 	w2.Forced = rep.Out.Events
 	w2.Sched.First = rep.Out.First
 	w2.HashEvery = true
+	w2.ExactHash = true
 	rep2 := runSched(&w2)
 	return &w2, rep2
 }
@@ -710,7 +713,16 @@ func schedWorker(prop, tier string, master uint64, from, to int, maxWall time.Du
 		}
 		for _, w := range ws {
 			progressRun(idx)
+			t0 := time.Now()
 			rep := runSched(w)
+			if ms := float64(time.Since(t0).Microseconds()) / 1000; ms > st.SlowestMs {
+				st.SlowestMs = ms
+				d := w.describe()
+				if len(d) > 300 {
+					d = d[:300] + "…"
+				}
+				st.SlowestRun = fmt.Sprintf("run %d (%s, policy %s, hash_every=%v, %d steps): %s", idx, w.Mode, simrt.Policy(w.Sched.Policy), w.HashEvery, rep.Out.Steps, d)
+			}
 			progressPhase(3)
 			accountRun(st, w, rep, seen)
 			if perRun {
